@@ -596,26 +596,34 @@ Proof. destruct a, b, c; reflexivity. Qed.
 
 Lemma e_then_in a b x y : e_in a x = true -> e_in b y = true -> e_in (then1 a b) (e_then x y) = true.
 Proof.
-  destruct x as [xu xw xd], y as [yu yw yd]; destruct a, b; simpl; intros H1 H2; subst; simpl;
+  destruct x as [xu xw xd xe], y as [yu yw yd ye]; destruct a, b; simpl; intros H1 H2; subst; simpl;
     repeat rewrite ?orb_true_r, ?orb_true_l, ?andb_true_r, ?andb_true_l; auto;
-    destruct xu, xw, xd; simpl in *; auto; discriminate.
+    destruct xu, xw, xd, xe; simpl in *; auto; discriminate.
 Qed.
 
 Lemma e_then_inv r x y : e_in r (e_then x y) = true ->
   exists a b, e_in a x = true /\ e_in b y = true /\ r = then1 a b.
 Proof.
-  destruct x as [xu xw xd], y as [yu yw yd]; destruct r; simpl; intros H.
+  destruct x as [xu xw xd xe], y as [yu yw yd ye]; destruct r; simpl; intros H.
   - apply andb_true_iff in H. destruct H. exists Untouched, Untouched. auto.
   - apply orb_true_iff in H. destruct H as [H|H]; apply andb_true_iff in H; destruct H as [H1 H2].
     + exists Written, Untouched. auto.
     + destruct xu; [exists Untouched, Written; auto|].
       destruct xw; [exists Written, Written; auto|].
-      destruct xd; [exists Deleted, Written; auto|]. discriminate.
+      destruct xd; [exists Deleted, Written; auto|].
+      destruct xe; [exists Emptied, Written; auto|]. discriminate.
   - apply orb_true_iff in H. destruct H as [H|H]; apply andb_true_iff in H; destruct H as [H1 H2].
     + exists Deleted, Untouched. auto.
     + destruct xu; [exists Untouched, Deleted; auto|].
       destruct xw; [exists Written, Deleted; auto|].
-      destruct xd; [exists Deleted, Deleted; auto|]. discriminate.
+      destruct xd; [exists Deleted, Deleted; auto|].
+      destruct xe; [exists Emptied, Deleted; auto|]. discriminate.
+  - apply orb_true_iff in H. destruct H as [H|H]; apply andb_true_iff in H; destruct H as [H1 H2].
+    + exists Emptied, Untouched. auto.
+    + destruct xu; [exists Untouched, Emptied; auto|].
+      destruct xw; [exists Written, Emptied; auto|].
+      destruct xd; [exists Deleted, Emptied; auto|].
+      destruct xe; [exists Emptied, Emptied; auto|]. discriminate.
 Qed.
 
 Lemma e_union_l a x y : e_in a x = true -> e_in a (e_union x y) = true.
@@ -631,14 +639,15 @@ Section LeakSound.
   Variable N : nat.
   Variable k : key.
   Variable des : nat -> bool.
+  Variable emp : nat -> bool.
 
   Notation exec := (exec V fw fb present N).
-  Notation peff := (peff V fw fb present N k).
+  Notation peff := (peff V fw fb present N emp k).
 
   Definition eff_ok (p : prog) (s : st V) : Prop :=
     match exec p s with
-    | Normal _ => e_in (peff p s) (fst (eff k des p)) = true
-    | Aborted f _ => des f = true -> e_in (peff p s) (snd (eff k des p)) = true
+    | Normal _ => e_in (peff p s) (fst (eff k des emp p)) = true
+    | Aborted f _ => des f = true -> e_in (peff p s) (snd (eff k des emp p)) = true
     end.
 
   Lemma star_closed na x y :
@@ -651,26 +660,26 @@ Section LeakSound.
     unfold eff_ok. induction p; intros s; simpl.
     - reflexivity.
     - reflexivity.
-    - destruct (String.eqb k0 k); reflexivity.
+    - destruct (String.eqb k0 k); [destruct (emp f)|]; reflexivity.
     - destruct (String.eqb k0 k); reflexivity.
     - destruct (String.eqb dst k); reflexivity.
     - intros ->. reflexivity.
     - (* Seq *)
-      specialize (IHp1 s). destruct (eff k des p1) as [na aa] eqn:E1. destruct (eff k des p2) as [nb ab] eqn:E2.
+      specialize (IHp1 s). destruct (eff k des emp p1) as [na aa] eqn:E1. destruct (eff k des emp p2) as [nb ab] eqn:E2.
       destruct (exec p1 s) as [s'|f s'] eqn:X1; simpl in *.
       + specialize (IHp2 s'). destruct (exec p2 s') eqn:X2; simpl in *.
         * apply e_then_in; auto.
         * intros Hd. apply e_union_r. apply e_then_in; auto.
       + intros Hd. apply e_union_l. auto.
     - (* Choice *)
-      destruct (eff k des p1) as [na aa] eqn:E1. destruct (eff k des p2) as [nb ab] eqn:E2.
+      destruct (eff k des emp p1) as [na aa] eqn:E1. destruct (eff k des emp p2) as [nb ab] eqn:E2.
       destruct (fb (log s) (ctr s)).
       + specialize (IHp1 (mk (sigma s) (log s) (S (ctr s)))).
         destruct (exec p1 _); simpl in *; [apply e_union_l; auto | intros Hd; apply e_union_l; auto].
       + specialize (IHp2 (mk (sigma s) (log s) (S (ctr s)))).
         destruct (exec p2 _); simpl in *; [apply e_union_r; auto | intros Hd; apply e_union_r; auto].
     - (* Loop *)
-      destruct (eff k des p) as [na aa] eqn:E1. simpl.
+      destruct (eff k des emp p) as [na aa] eqn:E1. simpl.
       set (star := e_union (e_one Untouched) na).
       assert (G : forall n s,
                  match iter_loop V fb (exec p) n s with
@@ -693,7 +702,7 @@ Section LeakSound.
             by (destruct (peff p _); reflexivity).
           apply e_then_in; auto.
     - (* IfComp *)
-      destruct (eff k des p) as [na aa] eqn:E1. simpl.
+      destruct (eff k des emp p) as [na aa] eqn:E1. simpl.
       destruct (present c (sigma s CL)).
       + specialize (IHp s). destruct (exec p s); simpl in *; auto. apply e_union_r. auto.
       + reflexivity.
